@@ -16,7 +16,7 @@ PROPS = {
         "thorough_wall": 2400,
         # (a share of sessions mixes scope registrations with insert_at at
         # the same place: registration order across the two kinds of request)
-        "params": {"syscall_p": 0.05, "other_sect_p": 0.06, "isa_weights": [75, 15, 10], "scope_session_p": 0.12, "constraints_p": 0.1, "extern_p": 0.08, "align_fill_p": 0.5},
+        "params": {"syscall_p": 0.05, "other_sect_p": 0.06, "isa_weights": [75, 15, 10], "scope_session_p": 0.12, "constraints_p": 0.1, "extern_p": 0.08, "align_fill_p": 0.5, "scope_insfn_p": 0.15, "decline_p": 0.06},
         "rule": "seeded scenarios (random module + 1-3 sessions of insert/replace/delete requests) executed against the real "
         "library and the listing model; modules also carry syscall-terminated blocks, several aligned blocks per byte interval, "
         "get_or_insert_extern_symbol requests; distinct = distinct (module, sessions) digest; non-trivial = at least one "
